@@ -10,7 +10,8 @@ ID = "C16"
 RULE = ("path stream: every name over the component alphabet {a,b,..,.,'',c:,dafj08sajfa,foo} x leading ''|'/'|'//' x "
         "trailing ''|'/' up to N components (exhaustive; N=5 quick, 6 thorough) plus random Unicode names is given to "
         "check_archive_path/_sanitize_archive_arcname/Path.as_posix/canonical_path/get_sanitized_output_path and to the "
-        "Lean model; the verdict is also compared with the Lean independent oracle. End-to-end: writestr/writef/write/"
+        "Lean model; the verdict is also compared with the Lean independent oracle, and re-evaluated with the process "
+        "standing in <tmp>/a/b, <tmp>/a and / (it must not depend on the working directory). End-to-end: writestr/writef/write/"
         "writeall on real archives, names listed after close. Non-trivial = name with at least one '..' or absolute prefix "
         "or drive prefix; distinct by name.")
 ASSUMPTIONS = ["pathlib.PurePosixPath parsing is as modelled by SevenZ.parse (checked by path.parts/path.str streams)",
@@ -140,6 +141,30 @@ def run(ctx):
             sig = "C16:probe_dir_reentry" if (v == "1" and set(n.split("/")) & probe) else "C16:check_verdict"
             ctx.fail(sig, "check_archive_path verdict differs from the independent definition",
                      {"name": n, "impl": v, "oracle": o})
+    # the verdict is a property of the name alone: it must not depend on where the process stands — in a directory
+    # whose own components occur in the names (so that '../b' lands back inside it), or at the file-system root
+    # (where '..' cannot climb)
+    wd = tempfile.mkdtemp(prefix="verif_c16w_")
+    old_cwd = os.getcwd()
+    st2 = ctx.streams.setdefault("path.check-any-cwd", {"cases": 0, "disagreements": 0})
+    try:
+        os.makedirs(os.path.join(wd, "a", "b"))
+        for cwd in (os.path.join(wd, "a", "b"), os.path.join(wd, "a"), "/"):
+            os.chdir(cwd)
+            for n, v in zip(names, verdicts):
+                try:
+                    v2 = "1" if helpers.check_archive_path(n) else "0"
+                except Exception as e:  # noqa
+                    v2 = "exc:" + type(e).__name__
+                st2["cases"] += 1
+                if v2 != v:
+                    st2["disagreements"] += 1
+                    if st2["disagreements"] <= 5:
+                        ctx.fail("C16:check_verdict", "check_archive_path verdict depends on the working directory",
+                                 {"name": n, "cwd": cwd.replace(wd, "<tmp>"), "verdict_here": v2, "verdict_elsewhere": v})
+    finally:
+        os.chdir(old_cwd)
+        shutil.rmtree(wd, ignore_errors=True)
     ctx.count("verdicts", "accepted", sum(1 for v in verdicts if v == "1"))
     ctx.count("verdicts", "rejected", sum(1 for v in verdicts if v == "0"))
 
